@@ -2113,12 +2113,14 @@ class Deb822NoDuplicateFieldsParagraphElement(Deb822ParagraphElement):
         # type: (ParagraphKey) -> None
         """Re-order the given field so it is "last" in the paragraph"""
         unpacked_field, _, _ = _unpack_key(field, raise_if_indexed=True)
+        self._ensure_final_newline()
         self._kvpair_order.order_last(unpacked_field)
 
     def order_first(self, field):
         # type: (ParagraphKey) -> None
         """Re-order the given field so it is "first" in the paragraph"""
         unpacked_field, _, _ = _unpack_key(field, raise_if_indexed=True)
+        self._ensure_final_newline()
         self._kvpair_order.order_first(unpacked_field)
 
     def order_before(self, field, reference_field):
@@ -2128,6 +2130,7 @@ class Deb822NoDuplicateFieldsParagraphElement(Deb822ParagraphElement):
         The reference field must be present."""
         unpacked_field, _, _ = _unpack_key(field, raise_if_indexed=True)
         unpacked_ref_field, _, _ = _unpack_key(reference_field, raise_if_indexed=True)
+        self._ensure_final_newline()
         self._kvpair_order.order_before(unpacked_field, unpacked_ref_field)
 
     def order_after(self, field, reference_field):
@@ -2138,6 +2141,7 @@ class Deb822NoDuplicateFieldsParagraphElement(Deb822ParagraphElement):
         """
         unpacked_field, _, _ = _unpack_key(field, raise_if_indexed=True)
         unpacked_ref_field, _, _ = _unpack_key(reference_field, raise_if_indexed=True)
+        self._ensure_final_newline()
         self._kvpair_order.order_after(unpacked_field, unpacked_ref_field)
 
     def iter_keys(self):
@@ -2265,6 +2269,7 @@ class Deb822DuplicateFieldsParagraphElement(Deb822ParagraphElement):
         """Re-order the given field so it is "last" in the paragraph"""
         nodes, nodes_being_relocated = self._nodes_being_relocated(field)
         assert len(nodes_being_relocated) == 1 or len(nodes) == len(nodes_being_relocated)
+        self._ensure_final_newline()
 
         kvpair_order = self._kvpair_order
         for node in nodes_being_relocated:
@@ -2311,6 +2316,7 @@ class Deb822DuplicateFieldsParagraphElement(Deb822ParagraphElement):
         The reference field must be present."""
         nodes, nodes_being_relocated = self._nodes_being_relocated(field)
         assert len(nodes_being_relocated) == 1 or len(nodes) == len(nodes_being_relocated)
+        self._ensure_final_newline()
         # For "before" we always use the "first" variant as reference in case of doubt
         _, reference_nodes = self._nodes_being_relocated(reference_field)
         reference_node = reference_nodes[0]
@@ -2335,6 +2341,7 @@ class Deb822DuplicateFieldsParagraphElement(Deb822ParagraphElement):
         """
         nodes, nodes_being_relocated = self._nodes_being_relocated(field)
         assert len(nodes_being_relocated) == 1 or len(nodes) == len(nodes_being_relocated)
+        self._ensure_final_newline()
         _, reference_nodes = self._nodes_being_relocated(reference_field)
         # For "after" we always use the "last" variant as reference in case of doubt
         reference_node = reference_nodes[-1]
